@@ -20,6 +20,9 @@ import graphgen as gg
 RULE_QUEUES = ("random op sequences of length 0-30 over items 0..14 (item 0 plays DONE: lowest priority, may repeat) on the three "
                "queue classes x {direct _put/_get, put/get(block=False)/task_done}; distinct by (class, mode, initial items, ops, "
                "recorded random indices); non-trivial = at least one get after a put")
+TRUSTED_BASE_QUEUES = ["H-heapq: heapq.heapify/heappush/heappop preserve the multiset of entries and pop a minimal one (tested on every op)",
+                       "H-shuffle: random.shuffle permutes in place; random.randrange(n) returns 0 <= i < n (the recording proxy checks both)",
+                       "queue.Queue put/get/task_done bookkeeping (stdlib; unfinished_tasks +1 per put, -1 per task_done)"]
 HEADER = ("From Coq Require Import List Arith Bool.\nImport ListNotations.\n"
           "From UJ Require Import Run.Exec_Queues.\n")
 NITEMS = 15
